@@ -73,7 +73,12 @@ func (s Kinds) Exclude(exclusions Kinds) Kinds {
 func (s Kinds) Remove(kind Kind) Kinds {
 	for idx, nodeKind := range s {
 		if kind == nodeKind {
-			return append(s[:idx], s[idx+1:]...)
+			// The receiver's backing array is left alone: it may be shared with the caller, for example when the kinds
+			// of a node are passed to its own DeleteKinds
+			remaining := make(Kinds, 0, len(s)-1)
+			remaining = append(remaining, s[:idx]...)
+
+			return append(remaining, s[idx+1:]...)
 		}
 	}
 
